@@ -136,6 +136,12 @@ pub fn run_lin(args: &Args, report: &mut Report) {
         for _ in 0..batch {
             h += 1;
             let hid = h * args.num("shards", 1).max(1) + shard;
+            if !explicit && h % 50 == 7 {
+                if let Some((sig, msg, replay)) = expired_insert_if_absent_races(report, args.seed, hid, &label) {
+                    report.violation(sig, msg, replay);
+                    break 'outer;
+                }
+            }
             if explicit && h % 10 == 5 {
                 if let Some((sig, msg, replay)) = scripted_overtaken(&store, report, args.seed, hid, base_ts + hid * 10_000 + 2_000, &label) {
                     report.violation(sig, msg, replay);
@@ -433,6 +439,54 @@ fn one_history(store: &Arc<FeoxStore>, cfg: &Cfg, seed: u64, hid: u64, explicit:
         let _ = store.delete_with_timestamp(k, if explicit { Some(base_ts + 9_999) } else { None });
     }
     violation
+}
+
+/// Racing insert-if-absent on a key whose only generation has EXPIRED but has not been swept: whatever the store
+/// makes of such a key (still "taken", or free again), at most one of the racing callers may be told that it
+/// created the key, and afterwards the key holds that caller's value or nothing. Own small TTL store per batch.
+fn expired_insert_if_absent_races(report: &mut Report, seed: u64, hid: u64, label: &str) -> Option<(String, String, serde_json::Value)> {
+    let store = Arc::new(FeoxStore::builder().hash_bits(6).enable_ttl(true).no_memory_limit().build().ok()?);
+    for round in 0..40u64 {
+        let key = format!("xp{hid}-{round}").into_bytes();
+        if store.insert_with_ttl(&key, b"generation-that-expires", 1).is_err() {
+            continue;
+        }
+        feoxdb::verif::advance_clock_ns(3_000_000_000);
+        let n = 4usize;
+        let barrier = Arc::new(Barrier::new(n));
+        let hs: Vec<_> = (0..n)
+            .map(|t| {
+                let (store, key, barrier) = (store.clone(), key.clone(), barrier.clone());
+                std::thread::spawn(move || {
+                    let v = values::make(Tag { key_id: 9, writer: t as u16, seq: round as u32 }, 30 + t);
+                    barrier.wait();
+                    (t, store.insert_if_absent(&key, &v), v)
+                })
+            })
+            .collect();
+        let results: Vec<_> = hs.into_iter().filter_map(|h| h.join().ok()).collect();
+        let winners: Vec<&(usize, feoxdb::Result<bool>, Vec<u8>)> = results.iter().filter(|r| matches!(r.1, Ok(true))).collect();
+        let after = store.get(&key).ok();
+        report.count("expired_key_insert_if_absent_races", 1);
+        let bad = if winners.len() > 1 {
+            Some(format!("{} racing insert_if_absent calls were all told they created the key", winners.len()))
+        } else if winners.len() == 1 && after.as_ref() != Some(&winners[0].2) {
+            Some(format!("the single winner's value is not what the key holds afterwards ({:?})", after.as_ref().map(|v| values::describe(v))))
+        } else if winners.is_empty() && after.is_some() {
+            Some("nobody was told it created the key, yet the key has a readable value".to_string())
+        } else {
+            None
+        };
+        if let Some(why) = bad {
+            return Some((
+                "lin:insert-if-absent-on-expired-key".into(),
+                format!("[{label}] key {} held one expired, unswept generation; 4 callers raced insert_if_absent: {why} (answers: {:?})", hex(&key), results.iter().map(|r| format!("{:?}", r.1.as_ref().map_err(|e| crate::storeutil::err_name(e)))).collect::<Vec<_>>()),
+                json!({"engine": "conc", "mode": "lin", "seed": seed, "history": hid, "label": label, "scripted": "expired-insert-if-absent"}),
+            ));
+        }
+        let _ = store.delete(&key);
+    }
+    None
 }
 
 /// Scripted "overtaken writer" histories: a call carrying an explicit timestamp Tw (upsert through the slice or
